@@ -52,6 +52,9 @@ def matrix_cases(ctx, dim, k, K):
             continue
         X = M.copy()
         X[:dim, :dim] += m * N[:dim, :dim]
+        if kind[:2] == 'SE' and pi_ == len(NOISE) - 1:
+            # last pattern: the noise covers the whole matrix, bottom row included (a "nearly valid rigid-motion matrix")
+            X[dim, :] += m * np.array([0.3, -0.7, 0.2, 0.5])[:dim + 1]
         cid = 'C14/%s/%s/noise=%s/p%d' % (fname, gn, mn, pi_)
         P = dict(kind=kind, g=gn.split('|')[0], noise=mn, pattern=pi_)
         C = getattr(sm, kind)
@@ -129,6 +132,9 @@ def vector_cases(ctx):
         entries = [('base.unit', lambda x: b.unit(x)), ('Quaternion.unit', lambda x: sm.Quaternion(x).unit().vec),
                    ('UnitQuaternion(s,v)', lambda x: sm.UnitQuaternion(x[0], x[1:]).vec), ('UnitQuaternion(list)', lambda x: sm.UnitQuaternion(x.tolist()).vec),
                    ('UnitQuaternion(array)', lambda x: sm.UnitQuaternion(x).vec)]
+        # the validation switch does not govern normalisation (that is `norm`, default True)
+        entries += [('UnitQuaternion(array,check=False)', lambda x: sm.UnitQuaternion(x, check=False).vec), ('UnitQuaternion(list,check=False)', lambda x: sm.UnitQuaternion(x.tolist(), check=False).vec),
+                    ('UnitQuaternion(s,v,check=False)', lambda x: sm.UnitQuaternion(x[0], x[1:], check=False).vec), ('UnitQuaternion(tuple)', lambda x: sm.UnitQuaternion(tuple(x.tolist())).vec)]
         for site, f in entries:
             cid = 'C14/%s/%s/%s' % (site, dn, mn)
             if not ctx.want(cid):
